@@ -44,7 +44,7 @@ def specs_for(ctx):
             specs.append({"tissue": {"kind": "catalogue", "base": b, "cells": inst["cells"],
                                      "sagitta": rng.choice([None, None, 0.08, 0.2]), "tseed": rng.randrange(10 ** 6)},
                           "k": inst["k"], "seed": rng.randrange(10 ** 9), "want": ["C02"],
-                          "sim": {"theta": theta, "scale": 10 ** (rng.uniform(-8, -5) if rng.random() < 0.15 else rng.uniform(-2, 2)), "offset_sizes": rng.choice([0, 0, 2, 30]),
+                          "sim": {"theta": theta, "scale": 10 ** (rng.uniform(-8, -5) if rng.random() < 0.15 else rng.uniform(-2, 2)), "offset_sizes": rng.choice([0, 0, 2, 30, 1500, 3500]),
                                   "extent": 10.0, "reflect": rng.random() < 0.2},
                           "build": _with_prebuild(rng, {"limit": "inf", "fit": rng.choice(["dlite", "taubinSVD"]),
                                                          "ignore_four": b == "squares33" and rng.random() < 0.5}),
